@@ -520,6 +520,9 @@ FAMILIES = [
     ("pfor", 1, "f", 2, 0), ("pfor", 2, "f", 3, 0), ("pfor", 3, "fs", 3, 0), ("pfor", 2, "ff", 2, 0), ("pfor", 1, "s", 2, 0),
     ("arena1", 1, "f", 1, 0), ("arena1", 2, "f", 1, 0), ("arena1", 2, "t", 1, 0), ("arena1", 2, "ft", 1, 1), ("arena1", 1, "s", 0, 0),
     ("outer", 1, "f", 1, 0), ("outer", 2, "f", 1, 0), ("outer", 3, "ff", 1, 0), ("outer", 2, "s", 1, 0), ("outer", 2, "ft", 1, 0),
+    # the group of the suspended task is cancelled while it is suspended, then resume(): it must still continue exactly once
+    ("tg", 1, "c", 1, 0), ("tg", 2, "c", 1, 0), ("tg", 3, "c", 2, 0), ("tg", 2, "C", 0, 0), ("arena1", 2, "c", 1, 0), ("nwait", 1, "c", 0, 0),
+    ("nwait", 2, "c", 1, 0), ("outer", 2, "c", 1, 0),
 ]
 TARGET_FAMILIES = [("tg", 1, "f", 1, 0), ("tg", 2, "f", 1, 0), ("tg", 2, "ff", 0, 1), ("pfor", 2, "f", 2, 0), ("arena1", 2, "f", 1, 0),
                    ("outer", 2, "f", 1, 0), ("outer", 1, "f", 0, 0), ("tg", 1, "F", 0, 0), ("outer", 1, "F", 0, 0), ("arena1", 2, "F", 1, 0)]
